@@ -57,7 +57,6 @@ TySet == {I(3), FM(0, FromInt(3), -1), F(-2), NI(P(64)), NF(FZero(0)), FM(0, One
 (* nested expressions *)
 NsSet == {FR(1, 10), MaxD, I(3), NI(Add(P(53), One))} \cup (IF Q THEN {} ELSE {MinSub, R(1, 3), I(0)})
 
-All == F2 \cup M2 \cup UnSet \cup TrSet \cup At2Set \cup PowB \cup PowE \cup MmSet \cup TySet \cup NsSet
 
 ArithOps == {"+", "-", "*"}
 UnOps    == {"float", "-", "+", "abs", "sign", "floor", "ceiling", "truncate", "round", "float_integer_part",
@@ -76,8 +75,8 @@ OpsOf(kd) == CASE kd = "arith"  -> ArithOps
                [] kd = "typeun" -> {"\\"}
                [] kd = "nest"   -> {"+", "-", "*", "/"}
 
-VARIABLES tab, prom, sets, phase, kind, op, op2, i, j, k, res
-vars == <<tab, prom, sets, phase, kind, op, op2, i, j, k, res>>
+VARIABLES vs, tab, prom, sets, phase, kind, op, op2, i, j, k, res
+vars == <<vs, tab, prom, sets, phase, kind, op, op2, i, j, k, res>>
 
 Idx(t, S) == {n \in 1..Len(t) : t[n] \in S}
 
@@ -116,16 +115,18 @@ Eval(kd, o, o2, a, b, c, x, y, z) ==
     [] kd = "nest" -> LET r1 == EvalBinP(o, a, b, x, y)
                       IN IF r1.k = "val" THEN EvalBinP(o2, r1.v, c, Promote(r1.v), z) ELSE r1
 
+(* vs: the operand sets (values), tab: their union as a sequence, prom: conversions to double, sets: index sets *)
 Init ==
-  /\ tab = SetToSeq(All)
+  /\ vs = [f2 |-> F2, m2 |-> M2, un |-> UnSet, tr |-> TrSet, at |-> At2Set, pb |-> PowB, pe |-> PowE, mm |-> MmSet,
+           ty |-> TySet, ns |-> NsSet]
+  /\ tab = SetToSeq(UNION {vs[f] : f \in DOMAIN vs})
   /\ prom = [n \in 1..Len(tab) |-> Promote(tab[n])]
-  /\ sets = [f2 |-> Idx(tab, F2), m2 |-> Idx(tab, M2), un |-> Idx(tab, UnSet), tr |-> Idx(tab, TrSet), at |-> Idx(tab, At2Set),
-             pb |-> Idx(tab, PowB), pe |-> Idx(tab, PowE), mm |-> Idx(tab, MmSet), ty |-> Idx(tab, TySet), ns |-> Idx(tab, NsSet)]
+  /\ sets = [f \in DOMAIN vs |-> Idx(tab, vs[f])]
   /\ phase = "pick" /\ kind \in Kinds /\ op \in OpsOf(kind) /\ op2 = "" /\ i \in First(kind, sets)
   /\ j = 0 /\ k = 0 /\ res = Skip
 
 Next ==
-  /\ phase = "pick" /\ phase' = "case" /\ UNCHANGED <<tab, prom, sets, kind, op, i>>
+  /\ phase = "pick" /\ phase' = "case" /\ UNCHANGED <<vs, tab, prom, sets, kind, op, i>>
   /\ j' \in Second(kind, sets, i) /\ k' \in Third(kind, sets)
   /\ op2' \in (IF kind = "nest" THEN {"+", "-", "*", "/"} ELSE {""})
   /\ LET a == tab[i]
